@@ -15,22 +15,22 @@ META = dict(
     functions=["AesEncryptorMixin.encrypt", "AesEncryptorMixin.decrypt", "SoftwareCustKeyEncryptor.encrypt/decrypt", "ConfigSecurityCodeEncryptor.__init__", "AES128Proxy.encrypt/decrypt", "BlockFeeder.feed", "BytesReader.read/seek"],
     stubs=["S-io", "S-cbc", "S-crc", "S-sha"],
     assumptions=["AES-CBC = uninterpreted per-(key,prev) bijection; CRC = fold of an uninterpreted step; SHA-256 = UF"],
-    bounds=dict(quick="payload lengths 0..48 and 60,61,100,127,128,200,250..253 (frame), all customer-key positions for len<=30 and boundary positions beyond; arbitrary-frame parser query for 1 and 2 blocks; padding formula for all lengths 0..253 symbolically", thorough="every payload length 0..253 for both encryptors; all customer-key positions for len<=40; arbitrary frames of 1..3 blocks"),
+    bounds=dict(quick="payload lengths 0..48 and 60,61,127,128,253 (frame), all customer-key positions for len in {10,11,12,26}; arbitrary-frame parser query for 1 and 2 blocks; padding formula for all lengths 0..253 symbolically", thorough="every payload length 0..253 for both encryptors; all customer-key positions for len<=30, boundary positions at 48,61,100,253; arbitrary frames of 1..3 blocks"),
     outside=["payload > 253 (length byte overflows: OverflowError, concrete edge)", "customer key slot extending past the payload"],
 )
 
 
 def jobs(tier, seed):
     J = []
-    lens = (list(range(0, 49)) + [60, 61, 100, 127, 128, 200, 250, 251, 252, 253]) if tier == "quick" else list(range(0, 254))
+    lens = (list(range(0, 49)) + [60, 61, 127, 128, 253]) if tier == "quick" else list(range(0, 254))
     for L in lens:
         J.append(dict(name="frame:cust:L%d" % L, kind="frame", enc="cust", L=L, timeout=900, cost=L + 10))
-        if tier == "thorough" or L % 3 == 0 or L > 249:
+        if tier == "thorough" or (L % 3 == 0 and L < 100) or L == 253:
             J.append(dict(name="frame:code:L%d" % L, kind="frame", enc="code", L=L, timeout=900, cost=L + 10))
-    cklens = [10, 11, 12, 20, 26, 27, 30] if tier == "quick" else list(range(10, 41))
+    cklens = [10, 11, 12, 26] if tier == "quick" else list(range(10, 31))
     for L in cklens:
         J.append(dict(name="custkey:allpos:L%d" % L, kind="custkey", L=L, positions="all", timeout=1200, cost=8 * L))
-    for L in ([61, 253] if tier == "quick" else [48, 61, 100, 200, 253]):
+    for L in ([] if tier == "quick" else [48, 61, 100, 253]):
         J.append(dict(name="custkey:boundarypos:L%d" % L, kind="custkey", L=L, positions="boundary", timeout=1200, cost=5 * L))
     for m in ((1, 2) if tier == "quick" else (1, 2, 3)):
         J.append(dict(name="parse:anyframe:blocks%d" % m, kind="anyframe", m=m, timeout=1500, cost=400 * m))
